@@ -107,7 +107,15 @@ func (m *supModel) stopAll(reason string) {
 // intensityExceeded applies the sliding window rule: the failure needs a
 // restart; does it need the (Intensity+1)-th restart within the last Period seconds?
 func (m *supModel) intensityExceeded(now time.Duration) bool {
-	period := time.Duration(m.c.Period) * time.Second
+	// an option left at zero takes its documented default (5 restarts, 5 seconds), each on its own
+	intensity, per := m.c.Intensity, m.c.Period
+	if intensity == 0 {
+		intensity = 5
+	}
+	if per == 0 {
+		per = 5
+	}
+	period := time.Duration(per) * time.Second
 	m.restarts = append(m.restarts, now)
 	cnt := 0
 	for _, t := range m.restarts {
@@ -119,7 +127,7 @@ func (m *supModel) intensityExceeded(now time.Duration) bool {
 			cnt++
 		}
 	}
-	return cnt > m.c.Intensity
+	return cnt > intensity
 }
 
 func (m *supModel) wantsRestart(reason string) bool {
